@@ -739,7 +739,7 @@ def optExpect (o : Obj) (r : Row) : Val := if r.encWire == "" then vzero r.goT e
 
 theorem shipOptField_ok (rows : List Row) (o : Obj) (r : Row) (hk : optRowOK rows r = true)
     (ht : r.encWire ≠ "" → typedV r.goT (o r.field) = true) :
-    shipOptField rows o r = some (optExpect o r) ∧ (r.encWire ≠ "" → (wireOfV rows o r.encWire).isSome = true) := by
+    shipOptField rows o r = some (optExpect o r) ∧ (r.encWire ≠ "" → (wireOfV rows o r.goT r.encWire).isSome = true) := by
   unfold optRowOK at hk
   by_cases he : r.encWire = ""
   · simp [he] at hk
@@ -755,7 +755,7 @@ theorem shipOptField_ok (rows : List Row) (o : Obj) (r : Row) (hk : optRowOK row
         simp only [Bool.and_eq_true, beq_iff_eq, decide_eq_true_eq] at hf
         have hrt := kind_rt r.goT pt _ r.enc r.dec (o r.field) hp (ht he)
         unfold shipV at hrt
-        have hwire : wireOfV rows o r.decWire = encV r.enc pt (o r.field) := by
+        have hwire : wireOfV rows o r.goT r.decWire = encV r.enc pt (o r.field) := by
           simp only [wireOfV, hpt, hw, hf.1, hf.2]
         constructor
         · simp only [shipOptField, hdw', Bool.false_eq_true, if_false, hwire, optExpect, he']
